@@ -1,4 +1,4 @@
-import BytomModel.Drv.Node
+import BytomModel.Drv.C33
 def main (args : List String) : IO UInt32 := do
-  BytomModel.Drv.Node.run args
+  BytomModel.Drv.C33.run args
   return 0
